@@ -160,6 +160,25 @@ func checkC10(p *Program, r *Report) {
 		okTx := strings.Contains(txid, "Hash") && strings.Contains(txid, "P0")
 		r.Add("C10.outpoint", mname, "the inserted outpoint is (this transaction, this output's index) and the script is this output's", hcall.Pos(), okScript && okIdx && okTx,
 			fmt.Sprintf("script %s; txid %s; index %s", script, txid, exprString(index)))
+		// the update happens exactly for an output one of whose own data pushes matched: the call lies behind the
+		// passing edge of a membership test made in this same iteration of the output loop (not behind a flag that
+		// an earlier output, or the txid, may have set)
+		readerFn := p.Func("bloom", "(*Filter).matches")
+		okOwn, howOwn := false, "the update is not guarded by a membership test of this output's pushes"
+		for _, cd := range MustCondsAtBlock(matcher, hcall.Block()) {
+			v, truth := cd.V, cd.Truth
+			if u, ok := v.(*ssa.UnOp); ok && u.Op == token.NOT {
+				v, truth = u.X, !truth
+			}
+			mc, ok := v.(*ssa.Call)
+			if !ok || !truth || readerFn == nil || mc.Call.StaticCallee() != readerFn {
+				continue
+			}
+			if body[mc.Block()] {
+				okOwn, howOwn = true, "behind the passing edge of matches(push) evaluated for this output"
+			}
+		}
+		r.Add("C10.outpoint", mname, "the filter is updated only for an output whose own data push matched", hcall.Pos(), okOwn, howOwn)
 	}
 
 	// ---- C10.flags
@@ -410,7 +429,7 @@ func checkC10(p *Program, r *Report) {
 		}
 	}
 	r.Floor("C10.scanall", 2)
-	r.Floor("C10.outpoint", 1)
+	r.Floor("C10.outpoint", 2)
 	r.Floor("C10.flags", 2)
 	r.Floor("C10.block", 5)
 }
